@@ -4,7 +4,7 @@ From Coq Require Import List Bool Arith Ascii String NArith ZArith.
 From UV.Base Require Import Order Res.
 From UV.Py Require Import PyStr.
 From UV.Schemes Require Import Common Generic LegacyOpenssl Gentoo GentooProofs Debian DebianProofs Semver Rpm.
-From UV.Ref Require Deb Semver Gentoo Openssl Rpm Alpm Gem Nuget Conan Maven.
+From UV.Ref Require Deb Semver Gentoo Openssl Rpm Alpm Gem Nuget Conan Maven Pep440.
 Import ListNotations.
 Local Open Scope list_scope.
 
@@ -90,4 +90,5 @@ Definition ref_cmp (cls : string) (a b : str) : option (option comparison) :=
   else if String.eqb cls "NugetVersion" then Some (Nuget.ref_nuget a b)
   else if String.eqb cls "ConanVersion" then Some (Conan.ref_conan a b)
   else if String.eqb cls "MavenVersion" then Some (Some (Maven.ref_maven a b))
+  else if String.eqb cls "PypiVersion" then Some (Pep440.ref_pypi a b)
   else None.
